@@ -264,12 +264,15 @@ def run(args, repo, jobs, seed, workdir, outdir):
             start += c
     results = []
     known = load_known()
+    # a worker stops after this many violations; known findings count among them inside the worker, so a property
+    # that has one gets more room (otherwise its batches end early and explore less than their budget)
+    max_viol = 40 if any(k.get("property") == prop for k in known) else 3
 
     def do(i_task):
         i, (p, start, count) = i_task
         job = {"mode": "batch", "property": prop, "profile": p["name"], "seed": seed,
                "start": start, "count": count, "replay_to": workdir, "samples": 1,
-               "max_viol": 3, "wall_s": wall_cap, "shrink_s": 20}
+               "max_viol": max_viol, "wall_s": wall_cap, "shrink_s": 20}
         b = race_binary if p["race"] else binary
         return run_worker(b, job, workdir, "b%d" % i, wall_cap + 600)
 
